@@ -12,6 +12,7 @@ namespace vf {
 
 static std::vector<Monitor>& monitors() { static std::vector<Monitor> m; return m; }
 void register_monitor(const Monitor& m) { monitors().push_back(m); }
+const std::vector<Monitor>& all_monitors() { return monitors(); }
 
 Str esc(const Str& s) {
     Str o; char b[8];
